@@ -237,10 +237,17 @@ def run(chk):
     ntrees = 6000 if chk.tier == 'quick' else 60000
     requests, expect = [], []
     t0 = time.time()
+    hangs = 0
     for _ in range(ntrees):
         node = random_tree(chk.rng)
         nnodes = len(dfs_nodes(node))
         for fmt in FORMATS:
+            if hangs >= 3 and not any(p[0] in ('i', 'j') for p in parse_format(fmt)):
+                chk.stat('skipped after 3 hangs (format without index)')
+                continue
+            if hangs >= 8:
+                chk.stat('skipped after 8 hangs')
+                continue
             pieces = parse_format(fmt)
             case = {'tree': node, 'fmt': fmt}
             chk.count((repr(node), fmt), nontrivial=nnodes >= 2)
@@ -251,6 +258,7 @@ def run(chk):
                 outcome = ('ok', t.node)
             except Timeout:
                 chk.fail('hang', f'reset_variables({fmt!r}) did not return within 2 s', case)
+                hangs += 1
                 continue
             except ValueError:
                 outcome = ('err', 5)
